@@ -79,7 +79,8 @@ def parseRoot (s : String) : Option (Bytes × Option (Node Attr)) :=
     else
       let toks := w.splitOn "/"
       match parseNodes (toks.length + 1) 1 toks with
-      | some ([n], []) => pure (st, some n)
+      -- (only well-formed worlds: the theorems about whole starting points are stated for them)
+      | some ([n], []) => if wfNode n then pure (st, some n) else none
       | _ => none
   | _ => none
 
